@@ -38,7 +38,22 @@ static std::string text(const J &f, const std::string &modelName)
             s += "<variable name=\"v2\" units=\"" + c["units2"].str() + "\" initial_value=\"2\" interface=\"public_and_private\"/>";
         }
         if (c["cn"].str("none") != "none") {
-            s += "<variable name=\"w\" units=\"" + c["cn"].str() + "\"/><math xmlns=\"" + std::string(MMLNS) + "\"><apply><eq/><ci>w</ci><cn cellml:units=\"" + c["cn"].str() + "\">1</cn></apply></math>";
+            // units named only by <cn> elements (the helper variables are dimensionless); "a|b": one <math> element per units
+            std::string spec = c["cn"].str();
+            std::vector<std::string> blocks;
+            size_t p0 = 0, p1;
+            while ((p1 = spec.find('|', p0)) != std::string::npos) {
+                blocks.push_back(spec.substr(p0, p1 - p0));
+                p0 = p1 + 1;
+            }
+            blocks.push_back(spec.substr(p0));
+            std::string decl, math;
+            for (size_t k = 0; k < blocks.size(); ++k) {
+                std::string w = "w" + (k == 0 ? std::string() : std::to_string(k + 1));
+                decl += "<variable name=\"" + w + "\" units=\"dimensionless\"/>";
+                math += "<math xmlns=\"" + std::string(MMLNS) + "\"><apply><eq/><ci>" + w + "</ci><cn cellml:units=\"" + blocks[k] + "\">1</cn></apply></math>";
+            }
+            s += decl + math;
         }
         s += "</component>\n";
     }
@@ -95,7 +110,7 @@ static void walk(const ComponentPtr &c, const std::string &parent, J &comps)
     J vars = J::arr();
     for (size_t i = 0; i < c->variableCount(); ++i) {
         auto v = c->variable(i);
-        if (v->name() == "w") {
+        if (v->name() == "w" || v->name() == "w2" || v->name() == "w3") {
             continue; // the helper variable of the cn-only math is not part of the signature
         }
         J vr = J::obj();
